@@ -32,7 +32,7 @@ ALL_FEATURES = {"comment", "semi", "chain", "augprec", "collide", "impure", "liv
 ALL_FAMILIES = {"enc", "fac", "mo", "ltf", "uf"}
 INVARIANTS = ["TypeOK", "Prog0Runs", "ObsPreserved", "RefusedUnchanged", "WritesBecomeSetters",
               "ReadsBecomeGetters", "TargetHasSite"]
-LAYOUT_TOKENS = ("NL", "IN", "DE", "#c")
+LAYOUT_TOKENS = ("NL", "IN", "DE", "#c", "NLC", "BSL")
 KEYWORDS_SPACE = ("return", "import", "from", "in", "class", "def")
 
 
@@ -61,6 +61,7 @@ def render(tokens, layout=0):
     indent = 0
     prev = None
     base = 0
+    cont = False
 
     def flush():
         nonlocal cur, cur_toks, base, prev
@@ -94,8 +95,15 @@ def render(tokens, layout=0):
         if t == "#c":
             cur += "  # c"
             continue
+        if t in ("NLC", "BSL"):      # line break inside brackets / backslash continuation
+            if t == "BSL":
+                cur += " \\"
+            flush()
+            cont = True
+            continue
         if prev is None:
-            cur = " " * indent
+            cur = " " * (indent + (4 if cont else 0))
+            cont = False
             sep = ""
         elif t in (")", ",", ".", ":", ";") or prev in ("(", ".", "@"):
             sep = ""
